@@ -116,6 +116,12 @@ def scan {N : Type} (sep : Option Nat) (cnt : Nat) : Inner N → Scan
     else if e.inserted.isSome then .next cnt e.next
     else scan e.next (cnt + 1) t
 
+/-- "special case where there is one unchanged range left, which is the last one, up to the worker.range.high" -/
+def unchAtEnd (sep high : Option Nat) : Bool :=
+  match sep with
+  | some low => (match high with | none => true | some h => decide (low < h))
+  | none => false
+
 /-- the answer to one request: `none` = the request stays pending; else the response, what is left of the tracker, and
 whether `left_neighbor` / `right_neighbor` are given up (`relink`) -/
 def answer {N : Type} (inner : Inner N) (low high : Option Nat) (right : Option Nat) (finished : Bool) :
@@ -125,10 +131,7 @@ def answer {N : Type} (inner : Inner N) (low high : Option Nat) (right : Option 
   | .next cnt nh => some (⟨inner.take (cnt + 1), nh, none⟩, inner.drop (cnt + 1), false)
   | .fin cnt sep =>
     if finished then
-      let unch := match sep with
-        | some low => (match high with | none => true | some h => decide (low < h))
-        | none => false
-      if unch then some (⟨inner.take cnt, high, none⟩, inner.drop cnt, false)
+      if unchAtEnd sep high then some (⟨inner.take cnt, high, none⟩, inner.drop cnt, false)
       else some (⟨inner.take cnt, high, some right⟩, inner.drop cnt, true)
     else none
 
@@ -299,33 +302,39 @@ def disconnected (g : G σ N C) (j : Nat) : Bool :=
 
 def setW (g : G σ N C) (i : Nat) (w : W σ N C) : G σ N C := { g with ws := upd g.ws i w }
 
+/-- `pending_request.take()` or else `left_neighbor.rx.try_recv()`: the requester and what is left in the channel -/
+def takeReq (g : G σ N C) (i : Nat) : Option (Nat × List Nat) :=
+  match (g.ws i).pending with
+  | some r => some (r, g.chans i)
+  | none => match g.chans i with
+    | r :: rest => some (r, rest)
+    | [] => none
+
+/-- the rest of `try_answer_left_neighbor` once a request of `r` has been taken -/
+def answerWith (g : G σ N C) (i : Nat) (finished : Bool) (next : Pc) (r : Nat) (chan : List Nat) : Res (G σ N C) :=
+  let w := g.ws i
+  match answer w.tr.inner w.low w.high w.right finished with
+  | none => .ok { setW g i { w with pending := some r, pc := next } with chans := upd g.chans i chan }
+  | some (resp, inner', relink) =>
+    if (g.ws r).pc matches .wait _ _ then
+      if (g.ws r).resp.isSome || r = i then .panic "response channel used twice" else
+      if relink && !chan.isEmpty then .panic "a request is dropped with the Receiver" else
+      let w' : W σ N C :=
+        { w with pending := none, tr := { w.tr with inner := inner' }, low := resp.newHigh, pc := next,
+                 left := if relink then false else w.left, right := if relink then none else w.right }
+      let wr := g.ws r
+      .ok { g with ws := upd (upd g.ws i w') r { wr with resp := some resp }, chans := upd g.chans i chan }
+    else .panic "request.tx.send(..).unwrap(): the requester is gone"
+
 /-- `try_answer_left_neighbor(&mut pending, &mut params, &mut tracker, finished)` of worker `i`, then `pc := next` -/
 def tryAnswer (g : G σ N C) (i : Nat) (finished : Bool) (next : Pc) : Res (G σ N C) :=
   let w := g.ws i
   if !w.left then .ok (setW g i { w with pc := next }) else
-  let req : Option (Nat × List Nat) :=
-    match w.pending with
-    | some r => some (r, g.chans i)
-    | none => match g.chans i with
-      | r :: rest => some (r, rest)
-      | [] => none
-  match req with
+  match takeReq g i with
   | none =>
     if disconnected g i then .ok (setW g i { w with left := false, pc := next })
     else .ok (setW g i { w with pc := next })
-  | some (r, chan) =>
-    match answer w.tr.inner w.low w.high w.right finished with
-    | none => .ok { setW g i { w with pending := some r, pc := next } with chans := upd g.chans i chan }
-    | some (resp, inner', relink) =>
-      if (g.ws r).pc matches .wait _ _ then
-        if (g.ws r).resp.isSome || r = i then .panic "response channel used twice" else
-        if relink && !chan.isEmpty then .panic "a request is dropped with the Receiver" else
-        let w' : W σ N C :=
-          { w with pending := none, tr := { w.tr with inner := inner' }, low := resp.newHigh, pc := next,
-                   left := if relink then false else w.left, right := if relink then none else w.right }
-        let wr := g.ws r
-        .ok { g with ws := upd (upd g.ws i w') r { wr with resp := some resp }, chans := upd g.chans i chan }
-      else .panic "request.tx.send(..).unwrap(): the requester is gone"
+  | some (r, chan) => answerWith g i finished next r chan
 
 /-- send an `ExtendRangeRequest` to `right_neighbor` and block -/
 def sendRequest (g : G σ N C) (i : Nat) (w : W σ N C) (k : Nat) (fin : Bool) : Res (G σ N C) :=
